@@ -192,6 +192,102 @@ def impl_arith(op, p, q, rng=None):
     return escaped('arith-op-%d' % op, e, dict(kind='arith', p=list(p), q=list(q)))
   raise ValueError(op)
 
+# ---- read-only observers applied in a given order to ONE KeyPath object ---------------------------------------------------
+OBS = ['path_str(True)', 'path_str(False)', '.path', 'str', 'repr', 'format()', 'hash', '== str', '< KeyPath', '< str', 'depth',
+       'parent', 'keys', '== KeyPath', '+', 'is_root']
+
+def observe(P, o, q):
+  """One observer on the object P; returns the answer as a wire tree. May raise."""
+  vl, _ = py()
+  K = vl.KeyPath
+  if o == 0: return [0, estr(P.path_str(True))]
+  if o == 1: return [0, estr(P.path_str(False))]
+  if o == 2: return [0, estr(P.path)]
+  if o == 3: return [0, estr(str(P))]
+  if o == 4: return [0, estr(repr(P))]
+  if o == 5: return [0, estr(P.format())]
+  if o == 6: return [1, int(hash(P) == hash(K(list(P.keys))))]
+  if o == 7: return [1, int(P == ref_path_str(q))]
+  if o == 8: return [1, int(P < K(list(q)))]
+  if o == 9: return [1, int(P < ref_path_str(q))]
+  if o == 10: return [2, P.depth]
+  if o == 11:
+    try: return [3, epath(P.parent.keys)]
+    except KeyError: return [4]
+  if o == 12: return [3, epath(P.keys)]
+  if o == 13: return [1, int(P == K(list(q)))]
+  if o == 14: return [3, epath((P + K(list(q))).keys)]
+  if o == 15: return [1, int(P.is_root)]
+  raise ValueError(o)
+
+def impl_observers(keys, obs):
+  vl, _ = py()
+  P = vl.KeyPath(list(keys))
+  out = []
+  for o, q in obs:
+    try:
+      out.append(observe(P, o, q))
+    except Exception as e:
+      out.append(escaped('observer ' + OBS[o], e, dict(kind='observers', keys=list(keys), obs=[[a, list(b)] for a, b in obs])))
+  return out
+
+def oracle_observers(keys, obs):
+  """After the observers ran (in this order) on one object, every law must still hold on that object, and each observer
+  must have answered what an untouched twin built from the same keys answers."""
+  vl, _ = py()
+  K = vl.KeyPath
+  hits = []
+  case = dict(kind='observers', keys=list(keys), obs=[[a, list(b)] for a, b in obs])
+  first = OBS[obs[0][0]] if obs else 'nothing'
+  def bad(law, msg): hits.append(('C10/observer-order/%s/first-%s' % (law, first), msg + ' (observers applied before: %s)' % [OBS[o] for o, _ in obs], case))
+  try:
+    P = K(list(keys))
+    for i, (o, q) in enumerate(obs):
+      got = observe(P, o, q)
+      twin = observe(K(list(keys)), o, q)
+      if got != twin:
+        bad('answer-differs-from-untouched-twin', '%s answers differently on KeyPath(%r) than on a fresh equal path' % (OBS[o], keys)); break
+    fresh = K(list(keys))
+    if P != fresh or not (P == fresh): bad('eq-fresh', 'KeyPath(%r) != a fresh equal path' % (keys,))
+    if hash(P) != hash(fresh): bad('hash-fresh', 'hash differs from the hash of a fresh equal path for %r' % (keys,))
+    if all(key_ok(k) for k in keys):
+      canon = ref_path_str(keys)
+      if str(P) != canon or P.path != canon or repr(P) != canon or P.format() != canon: bad('printed-form', 'str/path/repr/format of KeyPath(%r) is %r, not %r' % (keys, str(P), canon))
+      if not (P == canon): bad('eq-canonical-string', 'KeyPath(%r) == %r is False' % (keys, canon))
+      if hash(P) != hash(canon): bad('hash-string', 'hash(KeyPath(%r)) != hash(%r)' % (keys, canon))
+      back = K.parse(str(P))
+      if not same_keys(back.keys, keys) or back != P: bad('round-trip', 'KeyPath.parse(str(p)).keys = %r for p.keys = %r' % (back.keys, keys))
+      if {P: 1}.get(fresh) != 1 or {fresh: 1}.get(P) != 1: bad('dict-lookup', 'p and a fresh equal path do not find each other as dict keys')
+    if P.path_str(True) != fresh.path_str(True) or P.path_str(False) != fresh.path_str(False): bad('path_str', 'path_str differs from a fresh equal path')
+  except Exception as e:
+    bad('raises-' + type(e).__name__, 'raised %s: %s' % (type(e).__name__, str(e)[:100]))
+  return hits
+
+def observer_sweep(rng, paths, n_random):
+  """(a) every observer as the FIRST call on a fresh object, for every given path (the laws are checked afterwards, so this
+  covers every ordered pair observer -> law); (b) every ordered pair of string-producing observers; (c) random sequences."""
+  out = []
+  others = [[], ['a'], ['a.b'], [0]]
+  for p in paths:
+    for o in range(len(OBS)):
+      out.append((p, [(o, others[(o + len(p)) % len(others)] if o in (7, 8, 9, 13, 14) else [])]))
+    for o1 in (0, 1, 2, 3, 4, 5, 6):
+      for o2 in (0, 1, 2, 3, 4, 5, 6, 7):
+        if o1 != o2: out.append((p, [(o1, []), (o2, list(p) if o2 == 7 else [])]))
+  for _ in range(n_random):
+    p = rng.choice(paths) if rng.random() < 0.5 else gen_path(rng, maxlen=4)
+    n = rng.randint(1, 6)
+    seq = []
+    for _ in range(n):
+      o = rng.randrange(len(OBS))
+      q = (list(p) if rng.random() < 0.5 else gen_path(rng, maxlen=2)) if o in (7, 8, 9, 13, 14) else []
+      seq.append((o, q))
+    out.append((p, seq))
+  return out
+
+OBS_PATHS = [['a.b'], ['x', 'a.b'], ['a[0]', 'y'], ['[0]'], ['a', '.', 0], ['lr.decay', 'lr'], ['[a].[b]', -1], ['a'], ['a', 'b'], [0], ['0', 0],
+             [], ['$'], ['é', 'a.b', 'é'], ['-1', '[-1]']]
+
 def impl_set(ops, form_rng=None):
   vl, _ = py()
   K = vl.KeyPath
@@ -1164,6 +1260,12 @@ def run(ctx):
       oracle_jobs.append((oracle_arith, (p, q)))
     ctx.hist('order_pair_kinds', pair_kind(a, b))
     oracle_jobs.append((oracle_order, (a, b, c)))
+  # (C') observer order: read-only calls in a given order on one object, then every law on that object
+  for pth, seq in observer_sweep(rng, OBS_PATHS, ctx.scale(600, 8000)):
+    for o, _ in seq: ctx.hist('observers', OBS[o])
+    add([6, epath(pth), [[o, epath(q)] for o, q in seq]], impl_observers(pth, seq), 'observers', nontrivial_keys(pth) or len(seq) >= 2,
+        dict(op='observers on one KeyPath', keys=pth, observers=[OBS[o] for o, _ in seq]))
+    oracle_jobs.append((oracle_observers, (pth, seq)))
   # (D) KeyPathSet op sequences
   seqs = [s for s in CORPUS_SETS] + sweep_set_programs()
   for _ in range(ctx.scale(1500, 20000)):
@@ -1298,7 +1400,12 @@ def run(ctx):
       except Exception as e:
         found = [('C10/%s/raises-%s' % (fn.__name__.replace('oracle_', ''), type(e).__name__), 'raised %s: %s' % (type(e).__name__, str(e)[:120]), oracle_case(fn, args))]
       for sig, what, case in found: ctx.hit(sig, what, case)
+    sweep_paths_ok = [q for q in sweep_paths() if all(key_ok(k) for k in q)]
+    for pth, seq in observer_sweep(rng, OBS_PATHS + sweep_paths_ok[::7], 2000):
+      safely(oracle_observers, pth, seq)
+      if len(ctx.hits) >= 3: break
     for _ in range(ctx.scale(4000, 20000)):
+      if len(ctx.hits) >= 3: break
       safely(oracle_roundtrip, gen_path(rng, ok_only=True))
       a, b, c = gen_path(rng, maxlen=3), gen_path(rng, maxlen=3), gen_path(rng, maxlen=3)
       safely(oracle_arith, a, b); safely(oracle_order, a, b, c)
@@ -1319,6 +1426,7 @@ def oracle_case(fn, args):
   if n == 'oracle_order': return dict(kind='order', a=list(args[0]), b=list(args[1]), c=list(args[2]))
   if n == 'oracle_set': return dict(kind='set', ops=args[0])
   if n == 'oracle_objects': return dict(kind='objects', value_tr=epv(args[0]))
+  if n == 'oracle_observers': return dict(kind='observers', keys=list(args[0]), obs=[[a, list(b)] for a, b in args[1]])
   return _value_case(args[0])
 
 def replay(ctx, rp):
@@ -1331,6 +1439,7 @@ def replay(ctx, rp):
   elif k == 'parse':
     out = impl_parse(c['string'])
     hits = [('C10/parse/raises', 'parse(%r) raises an unexpected exception' % c['string'], c)] if out[:2] == [1, 98] else []
+  elif k == 'observers': hits = oracle_observers(c['keys'], [(a, b) for a, b in c['obs']])
   elif k == 'objects': hits = oracle_objects(dpv(c['value_tr']))
   elif k == 'value':
     v = dpv(c['value_tr'])
